@@ -377,3 +377,161 @@ Proof.
         rewrite ?Q1, ?Q2 in H. destruct (IH a u H) as [P|P]; [left; exact P | right; apply MONO; exact P].
     + destruct (IH a u H) as [P|P]; [left; exact P | right; apply MONO; exact P].
 Qed.
+
+(* ------------------------------------------------------------------ *)
+(** * Calls behind a pending terminate(Dropped) *)
+
+Definition beh (a : N) (k : list mop) (s : st) (u : N) : Prop :=
+  (exists k1 mk k2, k = k1 ++ mk :: k2 /\ markm a mk /\ (In u (kru a k2) \/ In u (qru a (mainq s)))) \/
+  (exists q1 c q2, mainq s = q1 ++ c :: q2 /\ ci_kind c = KTerm a /\ In u (qru a q2)).
+
+Lemma kru_loc a k u : In u (kru a k) -> 1 <= cmops (RClo u) k.
+Proof. intros H. apply kcu_census. eapply kru_in_kcu; eauto. Qed.
+Lemma qru_loc a l u : In u (qru a l) -> 1 <= cq (RClo u) l.
+Proof. intros H. apply qcu_census. eapply qru_in_qcu; eauto. Qed.
+
+Lemma held_loc a s u : In u (qru a (held_a s a)) -> 1 <= cacts (RClo u) (actors s).
+Proof.
+  unfold held_a. destruct (aget (actors s) a) as [y|] eqn:A; [|intros []]. intros H.
+  apply hcu_census. unfold hcu. apply in_flat_map. exists (a, y). split; [apply aget_In; exact A|].
+  simpl. eapply qru_in_qcu; eauto.
+Qed.
+
+(* a token behind a marker is somewhere in the configuration *)
+Lemma beh_loc a k s u : beh a k s u -> 1 <= LinStep.cnt (RClo u) k s.
+Proof.
+  unfold LinStep.cnt, cst. pose proof (cmops_nn (RClo u) k). pose proof (cq_nn (RClo u) (mainq s)). pose proof (cq_nn (RClo u) (lazyq s)).
+  pose proof (cq_nn (RClo u) (idleq s)). pose proof (ctim_nn (RClo u) (timers s)). pose proof (cacts_nn (RClo u) (actors s)).
+  pose proof (cenv_nn (RClo u) (env s)). pose proof (cfrs_nn (RClo u) (frames s)). pose proof (cnu_nn (RClo u) (nuid s)).
+  intros [(k1 & mk & k2 & -> & _ & [T|T])|(q1 & c & q2 & E & _ & T)].
+  - pose proof (kru_loc _ _ _ T). rewrite cmops_app in *. simpl in *. pose proof (cmops_nn (RClo u) k1). pose proof (cmop_nn (RClo u) mk). lia.
+  - pose proof (qru_loc _ _ _ T). lia.
+  - pose proof (qru_loc _ _ _ T) as L. rewrite E, cq_app in *. simpl. pose proof (cq_nn (RClo u) q1). pose proof (cci_nn (RClo u) c). lia.
+Qed.
+
+Lemma app_split {X} (a b c : list X) x d : a ++ b = c ++ x :: d ->
+  (exists p2, a = c ++ x :: p2 /\ d = p2 ++ b) \/ (exists c', c = a ++ c' /\ b = c' ++ x :: d).
+Proof.
+  revert c. induction a as [|y a IH]; intros c E; simpl in E.
+  - right. exists c. auto.
+  - destruct c as [|z c]; simpl in E.
+    + inversion E; subst. left. exists a. auto.
+    + inversion E; subst. destruct (IH c H1) as [(p2 & -> & ->)|(c' & -> & ->)]; [left; exists p2; auto | right; exists c'; auto].
+Qed.
+
+(* behind the marker that a marker at the head turns into, nothing of the pushed micro-ops is a call to a *)
+Lemma marks_tail a m s pre s' k1 mk p2 :
+  KS s -> markm a m -> handle m s = (pre, s') -> pre = k1 ++ mk :: p2 -> markm a mk -> kru a p2 = [].
+Proof.
+  intros KK MB. destruct m; try (destruct MB; fail); cbn [handle].
+  - (* MRunItem (KTerm a) *)
+    simpl in MB. unfold run_item. destruct c as [u i kd caps q]. simpl in MB. subst kd. intros Q; injp Q. intros E MK.
+    destruct k1 as [|x k1]; inversion E; subst; [reflexivity|].
+    destruct k1 as [|x2 k1]; inversion H1; subst; [destruct MK | destruct k1; discriminate].
+  - (* MRetInvoke *)
+    destruct m as [[v|[| | |]]|]; try (destruct MB; fail). simpl in MB.
+    unfold ret_invoke. destruct r as [rid k]. destruct k as [caps bd|p ci|p ci|p inner|p key inner]; try (destruct MB; fail).
+    + destruct inner as [[p0 ci]|]; intros Q; injp Q; intros E; destruct k1; discriminate E.
+    + intros Q; injp Q. intros E MK. destruct k1 as [|x k1]; inversion E; subst; [reflexivity|].
+      destruct k1 as [|x2 k1]; inversion H1; subst; [destruct MK | destruct k1; discriminate].
+  - (* MTerminate a CDrop *)
+    destruct c; try (destruct MB; fail). simpl in MB. subst a0. unfold terminate.
+    destruct (aget (actors s) a) as [y|] eqn:A; [|intros Q; injp Q; intros E; destruct k1; discriminate E].
+    destruct (state_drops a (a_state y) _) as [dl s1] eqn:SD.
+    destruct (a_notify y) as [nt|]; intros Q; injp Q; intros E MK.
+    + apply app_split in E as [(q2 & E1 & E2)|(c' & E1 & E2)].
+      * exfalso. eapply (state_drops_nomark a); [exact SD | rewrite E1; apply in_or_app; right; left; reflexivity | exact MK].
+      * destruct c' as [|x c']; inversion E2; subst; [destruct MK|].
+        destruct c' as [|x2 c']; inversion H1; subst; [reflexivity | destruct c'; discriminate].
+    + exfalso. eapply (state_drops_nomark a); [exact SD | rewrite E; apply in_or_app; right; left; reflexivity | exact MK].
+Qed.
+
+Lemma qru_app_in a l1 l2 u : In u (qru a (l1 ++ l2)) -> In u (qru a l1) \/ In u (qru a l2).
+Proof. rewrite qru_app. apply in_app_or. Qed.
+
+Lemma qru_item a l u : In u (qru a l) -> exists c, In c l /\ rcb a c = true /\ ci_uid c = u.
+Proof.
+  unfold qru. intros H. apply in_flat_map in H as (c & IC & IU). unfold ru in IU. destruct (rcb a c) eqn:R; [|destruct IU].
+  destruct IU as [<-|[]]. eauto.
+Qed.
+
+Lemma rcb_callk a c : rcb a c = true -> callk c.
+Proof. unfold rcb, callk. destruct (ci_kind c); try discriminate. intros _. exact I. Qed.
+
+(* moving behind: a call to a that is pending in the old configuration and sits behind a marker in the new one sat
+   behind a marker already *)
+Lemma beh_step a u m k0 s pre s' :
+  KS s -> QTags s -> FD s -> WF (m :: k0) s -> Lin (pre ++ k0) s' ->
+  batchop m = false -> handle m s = (pre, s') ->
+  In u (pendlist a (m :: k0) s) -> beh a (pre ++ k0) s' u -> beh a (m :: k0) s u.
+Proof.
+  intros KK QT F W LN NB E PL BH.
+  destruct (handle_mqa _ _ _ _ NB E) as [add MQ].
+  (* a call to a appended to the main queue in this step cannot be our pending one *)
+  assert (NEW : In u (qru a add) -> False).
+  { intros IA. destruct (qru_item _ _ _ IA) as (c' & IC & RC & CU).
+    pose proof (qru_loc _ _ _ IA) as LA.
+    pose proof (Lin_uid_once _ _ u LN) as ONCE. unfold LinStep.cnt, cst in ONCE. rewrite MQ, cq_app, cmops_app in ONCE.
+    pose proof (cmops_nn (RClo u) pre). pose proof (cmops_nn (RClo u) k0). pose proof (cq_nn (RClo u) (mainq s)).
+    pose proof (cq_nn (RClo u) (lazyq s')). pose proof (cq_nn (RClo u) (idleq s')). pose proof (ctim_nn (RClo u) (timers s')).
+    pose proof (cacts_nn (RClo u) (actors s')). pose proof (cenv_nn (RClo u) (env s')). pose proof (cfrs_nn (RClo u) (frames s')).
+    pose proof (cnu_nn (RClo u) (nuid s')).
+    assert (SRC : (exists l, m = MActs l) \/ (exists r mm, m = MRetInvoke r mm) \/ 1 <= cq (RClo u) (mainq s)).
+    { assert (D : (exists l, m = MActs l) \/ (exists r mm, m = MRetInvoke r mm) \/
+                  ((forall l, m <> MActs l) /\ (forall r mm, m <> MRetInvoke r mm))).
+      { destruct m; try (right; right; split; [intros ? Q; discriminate Q | intros ? ? Q; discriminate Q]).
+        - left. eauto.
+        - right. left. eauto. }
+      destruct D as [D|[D|[NA NR]]]; [left; exact D | right; left; exact D | right; right].
+      pose proof (handle_mqc _ _ _ _ NA NR E) as C.
+      destruct (C c') as [IM|NC]; [rewrite MQ; apply in_or_app; right; exact IC | | exfalso; apply NC; eapply rcb_callk; eauto].
+      apply qcu_census. unfold qcu. apply in_flat_map. exists c'. split; [exact IM|].
+      eapply ru_in_cu. unfold ru. rewrite RC. left. exact CU. }
+    destruct SRC as [(l & ->)|[(r & mm & ->)|DB]]; [| |lia].
+    - (* an act *)
+      assert (HS : forall b, held_a s' b = held_a s b).
+      { destruct l as [|act l]; [cbn [handle] in E; injp E; reflexivity|].
+        assert (KC : kclass (MActs (act :: l)) = true) by reflexivity.
+        destruct (kclass_kout _ _ _ _ _ KC W QT E) as [KE _]. apply keff_held. exact KE. }
+      unfold pendlist in PL. rewrite kru_cons in PL. cbn [mru app] in PL.
+      apply in_app_or in PL as [PL|PL]; [|apply in_app_or in PL as [PL|PL]].
+      + rewrite <- HS in PL. pose proof (held_loc _ _ _ PL). lia.
+      + pose proof (kru_loc _ _ _ PL). lia.
+      + pose proof (qru_loc _ _ _ PL). lia.
+    - (* a Ret invocation *)
+      cbn [handle] in E.
+      unfold pendlist in PL. rewrite kru_cons in PL. cbn [mru app] in PL.
+      apply in_app_or in PL as [PL|PL]; [|apply in_app_or in PL as [PL|PL]].
+      + rewrite <- (ret_invoke_held _ _ _ _ _ a E) in PL. pose proof (held_loc _ _ _ PL). lia.
+      + pose proof (kru_loc _ _ _ PL). lia.
+      + pose proof (qru_loc _ _ _ PL). lia. }
+  destruct BH as [(k1 & mk & k2 & EK & MK & T)|(q1 & c & q2 & EQ & CK & T)].
+  - apply app_split in EK as [(p2 & EP & E2)|(c' & E1 & E0)].
+    + (* the marker is among the pushed micro-ops: the head was a marker *)
+      assert (INP : In mk pre) by (rewrite EP; apply in_or_app; right; left; reflexivity).
+      destruct (handle_marks a _ _ _ _ KK QT F E mk INP MK) as [MB|((t & TT) & _)]; [|destruct TT; subst m; discriminate NB].
+      left. exists [], m, k0. split; [reflexivity|]. split; [exact MB|].
+      destruct T as [T|T].
+      * subst k2. rewrite kru_app, (marks_tail _ _ _ _ _ _ _ _ KK MB E EP MK) in T. left. exact T.
+      * rewrite MQ in T. apply qru_app_in in T as [T|T]; [right; exact T | exfalso; exact (NEW T)].
+    + (* the marker was in the continuation already *)
+      left. exists (m :: c'), mk, k2. split; [simpl; rewrite E0; reflexivity|]. split; [exact MK|].
+      destruct T as [T|T]; [left; exact T|]. rewrite MQ in T. apply qru_app_in in T as [T|T]; [right; exact T | exfalso; exact (NEW T)].
+  - (* the marker is the queued item *)
+    rewrite MQ in EQ. apply app_split in EQ as [(p2 & EP & E2)|(c' & E1 & E0)].
+    + right. exists q1, c, p2. split; [exact EP|]. split; [exact CK|]. subst q2.
+      apply qru_app_in in T as [T|T]; [exact T | exfalso; exact (NEW T)].
+    + (* it was queued in this very step: the last owner drop, nothing behind it *)
+      exfalso. assert (INC : In c (mainq s')) by (rewrite MQ, E0; apply in_or_app; right; apply in_or_app; right; left; reflexivity).
+      assert (D : (exists a0 lg, m = MDropOwn a0 lg) \/ forall a0 lg, m <> MDropOwn a0 lg).
+      { destruct m; try (right; intros ? ? Q; discriminate Q). left; eauto. }
+      destruct D as [(a0 & lg & ->)|D].
+      * cbn [handle] in E. destruct (drop_own_add _ _ _ _ _ E) as [A|A]; rewrite MQ in A.
+        -- assert (AE : add = []) by (apply (app_inv_head (mainq s)); rewrite app_nil_r; exact A). rewrite AE in E0. destruct c'; discriminate E0.
+        -- apply app_inv_head in A. rewrite A in E0. destruct c' as [|x c']; inversion E0 as [[X1 X2]]; [subst q2; destruct T | destruct c'; discriminate].
+      * destruct (handle_mqk _ _ _ _ D E c INC) as [IM|NT]; [|eapply NT; eauto].
+        (* the same item value also in the old queue: the token after it would be counted twice *)
+        destruct (qru_item _ _ _ T) as (ct & ICT & RCT & CUT).
+        assert (INA : In ct add) by (rewrite E0; apply in_or_app; right; right; exact ICT).
+        apply NEW. unfold qru. apply in_flat_map. exists ct. split; [exact INA|]. unfold ru. rewrite RCT. left. exact CUT.
+Qed.
